@@ -845,6 +845,8 @@ impl Database {
         // The snapshot works on a copy of the keys taken before it started writing: a write
         // accepted since then must not be replaced by the (older) copy that was just stored.
         // Such a key keeps its newer value and stays to be stored, only at its new place on disk
+        #[cfg(feature = "verif")]
+        crate::verif::yield_point("set_value_as_ok.map.write");
         let mut db = self.map.write().unwrap();
         let stored = match db.get(key) {
             Some(current)
